@@ -418,4 +418,11 @@ def run(prop: str, tier: str, seed: int) -> int:
 
 
 def replay(prop: str, case: dict) -> dict:
-    return {"clause": "replay-by-rerun", "case": case}
+    """Re-validate the recorded history (values, row counts) against the specification."""
+    rec = dict(case)
+    rec["id"] = "replay"
+    mod = "dyn/Trace_Sur" if "budget" in rec else "dyn/Trace_FoM"
+    if "steps" not in rec:
+        return {"clause": ["recorded-failure:" + str(rec.get("error", ""))[:80]], "case": rec}
+    vs = core.validate(mod, [rec])
+    return {"clause": vs["replay"], "case": rec, "mode": "revalidated-recorded-case"}
